@@ -342,7 +342,7 @@ def refStates (oracle : List (Nat × (BTR ⊕ String))) : Nat → Nat → State 
     | _ => σ :: acc
 
 /-- is a case with a merged guard covered by `asm_refines_merged_partial`?  Evaluates its hypotheses for
-    `tb' = normalize tb`: coherence and well-formedness of `tb'`, `MergedOf`, `assemble tb' = assemble tb` (the step that is
+    `tb' = canonTable tb manual` (every successor carries the final guard of its transfer): coherence and well-formedness of `tb'`, `MergedOf`, `assemble tb' = assemble tb` (the step that is
     not proved for all tables), and `GuardsTyped` at the instruction boundaries of the reference run. -/
 def mergedCoverage (req ans : String) : String :=
   match splitBar req, splitBar ans with
@@ -354,10 +354,11 @@ def mergedCoverage (req ans : String) : String :=
     match parseTr (asmS.drop 3).toString, parseOracle (orS.drop 7).toString, MachState.parse stS with
     | some tr, some oracle, some ms =>
       let tb : List (Nat × BTR) := tr.map (fun (a, r) => (a, r.getD (Assemble.emptyResult a)))
-      let tb' := Assemble.normalize tb
-      if !decide (Assemble.Coherent tb' manual) then "uncovered(normalised-table-incoherent)"
+      let tb' := Assemble.canonTable tb manual
+      if tb'.map (·.2.instrs) != tb.map (·.2.instrs) then "uncovered(instruction-lists-differ)"
+      else if !decide (Assemble.Coherent tb' manual) then "uncovered(normalised-table-incoherent)"
       else if (illFormedGraph tb').isSome then "uncovered(ill-formed-graph)"
-      else if !Assemble.mergedOfB tb tb' manual then "uncovered(more-than-two-guards)"
+      else if !Assemble.mergedOfB tb tb' manual then "uncovered(not-a-disjunction-of-requested-guards)"
       else if !(match Assemble.assemble tb' manual entry, Assemble.assemble tb manual entry with
                 | .ok f', .ok f => f' == f
                 | _, _ => false) then "uncovered(normalised-table-assembles-differently)"
